@@ -24,7 +24,7 @@ def stepNew (sq : Square) (ws : List String) : String :=
       match Lumina.Model.Sample.fromRaw r c (Lumina.Model.Sample.toRaw s) with
       | .error e => if e.isPanic then "panic" else s!"err decode:{e.kind}"
       | .ok d =>
-        let v := match Lumina.Model.Sample.verifyUnfixed sha d r c dah with
+        let v := match Lumina.Model.Sample.verify sha d r c dah with
           | .ok () => "ok"
           | .error e => if e.isPanic then "panic" else s!"err:{e.kind}"
         s!"ok share={toHex d.share.data} {showProofFields d.proof} verify={v}"
@@ -38,7 +38,7 @@ def stepVerify (sq : Square) (ws : List String) : String :=
     let shr := if par == 1 then shareParity share else shareFromRaw share
     match shr with
     | .error _ => "bad-share"
-    | .ok sh => showUnit (Lumina.Model.Sample.verifyUnfixed sha ⟨ax, sh, proof⟩ r c dah)
+    | .ok sh => showUnit (Lumina.Model.Sample.verify sha ⟨ax, sh, proof⟩ r c dah)
   | none, _, _, _, _, _, _ => "no-square"
   | _, _, _, _, _, _, _ => "bad-op"
 
@@ -62,7 +62,7 @@ def stepRecv (sq : Square) (ws : List String) : String :=
   | some dah, some r, some c, some raw =>
     match Lumina.Model.Sample.fromRaw r c raw with
     | .error e => if e.isPanic then "panic" else s!"err decode:{e.kind}"
-    | .ok s => showUnit (Lumina.Model.Sample.verifyUnfixed sha s r c dah)
+    | .ok s => showUnit (Lumina.Model.Sample.verify sha s r c dah)
   | none, _, _, _ => "no-square"
   | _, _, _, _ => "bad-op"
 
